@@ -381,7 +381,7 @@ theorem gen_elem1 (K : Consts) (ts : TypeSystem) (cass : List Cas) (ci : Nat) (c
     intro h
     obtain ⟨vn, v, _, _, _, hs, hv, _⟩ := hann h
     exact ⟨ci, vn, v, hs, by rw [hc]; exact hv⟩
-  have hgt : getType ts o.ty = .ok t := by unfold getType; rw [ht]
+  have hgt : getTypeExact ts o.ty = .ok t := by unfold getTypeExact; rw [ht]
   -- per feature
   have hfc : ∀ f ∈ allFeatures t, ∃ (v : Val) (av : Option String) (ks : List (Option String)),
       alistGet? o.slots f.name = some v ∧
